@@ -12,7 +12,7 @@ SRCS = None
 DRIVER_PARTS = ["xt_util.ml", "drv_C09.ml"]
 LEVEL = "proof"
 CASE_TIMEOUT = 0.2
-RULE = ("case = screen size, probed capabilities (slrm, colon, rgb) and a sequence of requests (goto, move, print, "
+RULE = ("case = screen size, probed capabilities (slrm = the DECRPM value 0..4 the terminal answers the DECLRMM query with, colon, rgb) and a sequence of requests (goto, move, print / printn / printf, "
         "erasech, clear, scrollrect, chpen/setpen to switch reverse video and background); the implementation's bytes "
         "per request are compared exactly with the model's and are interpreted by the extracted VT screen, whose state "
         "is checked against the direct meaning of the request.  A case is non-trivial when at least one request wrote "
@@ -24,8 +24,9 @@ ASSUMPTIONS = [
     "requests are in range: cursor targets on screen; printed text is printable ASCII that fits in the line; an erase "
     "stays within the line (strictly inside it when the cursor must end after it) and starts from a cursor that is not in "
     "the pending-wrap state; a scrolled rectangle lies on the screen with |downward| < lines and |rightward| < cols",
-    "the terminal starts in its power-on state (no margins, autowrap on, default rendition) and implements DECLRMM "
-    "when it answers the probe for mode 69 positively",
+    "the terminal starts in its power-on state (no margins, autowrap on, default rendition) and answers the "
+    "DECLRMM query truthfully: DECRPM 1 / 2 (set / reset) or 3 (permanently set) = CSI ?69h took effect and DECSLRM is honoured; "
+    "0 (not recognised) or 4 (permanently reset) = it did not and CSI Pl;Pr s is ignored (the oracle's screen is configured so)",
 ]
 TRUSTED = [
     "coq/VT.v: hand-written specification of a VT-conformant screen (DEC STD 070 / xterm ctlseqs reading of CUP, VPA, CHA, "
@@ -61,7 +62,7 @@ class Cur:
             if self.known is False and l != -1 and c != -1: self.known = True
         elif k == "M":
             self.row += int(f[1]); self.col += int(f[2]); self.pend = False if (int(f[1]) or int(f[2])) else self.pend
-        elif k in ("P", "p", "n"):
+        elif k in ("P", "p", "n", "f"):
             n = 0 if f[1] == "-" else len(f[1]) // 2
             if k == "n":
                 n = int(f[2])          # printn writes the first len bytes; nothing for length 0
@@ -115,6 +116,9 @@ def op_tag(slrm, lines, cols, cur, op):
         return ("G", l == -1, -1 if c == -1 else 0 if c == 0 else 1, cur.pend)
     if k == "M": return ("M", mag(int(f[1])), mag(int(f[2])))
     if k in ("P", "p"): return (k, cur.col + (0 if f[1] == "-" else len(f[1]) // 2) >= cols)
+    if k == "f":
+        n = 0 if f[1] == "-" else len(f[1]) // 2
+        return ("f", n if 60 <= n <= 68 else min(n, 2) if n < 60 else 69, cur.col + n >= cols)
     if k == "n": return ("n", int(f[2]) == 0, int(f[2]) == (0 if f[1] == "-" else len(f[1]) // 2))
     if k == "O": return ("O", min(int(f[1]), 65))
     if k == "E":
@@ -180,18 +184,42 @@ def _gen(tier, seed, info):
                 counts["print_buffer"] = counts.get("print_buffer", 0) + 1
                 yield "2 12 1 0 0 O:%d G:1:1 p:%s G:0:0 n:%s:%d F c:rv=1 E:5:0 S:0:0:2:12:1:0 O:0 P:%s" % (
                     size, hexs(text), hexs(text), ln, hexs(text))
+    # 3c. the DECLRMM probe answered with every DECRPM value (0 not recognised, 1 set, 2 reset, 3 permanently set,
+    #     4 permanently reset): only 1 and 2 mean left/right margins can be used; every rectangle of a 3x4 screen
+    for v in (0, 1, 2, 3, 4):
+        for (t, l, h, w) in rects(3, 4):
+            for d, r in ((0, 1), (0, -1), (1, 0), (-1, 0), (1, 1)):
+                if abs(d) < h and abs(r) < w:
+                    counts["decrpm69"] = counts.get("decrpm69", 0) + 1
+                    yield "3 4 %d 0 0 S:%d:%d:%d:%d:%d:%d" % (v, t, l, h, w, d, r)
+    # 3d. tickit_term_printf: results of every length around the internal scratch sizes (64-byte local buffers,
+    #     the shared tmpbuffer), with and without an output buffer
+    for n in list(range(0, 6)) + list(range(60, 70)) + [127, 128, 129, 255, 256, 257]:
+        text = "".join(chr(33 + (i * 7) % 90) for i in range(n))
+        for size in (0, 64):
+            counts["printf_lengths"] = counts.get("printf_lengths", 0) + 1
+            yield "2 300 1 0 0 O:%d G:1:0 f:%s G:0:0 f:%s p:%s" % (size, hexs(text), hexs(text[:5]), hexs(text[:3]))
+    # 3e. the scratch buffer shared by erasech's blanks, the SGR encoder and printf: reverse-video erases with a pen
+    #     change / a printf / a goto in between, short and long counts
+    for n1 in (1, 5, 64, 65, 130):
+        for n2 in (1, 3, 64, 70):
+            for mid in ("c:b=1", "c:fg=3,bg=200", "s:rv=1,u=2", "c:fg=12#aabbcc", "f:" + hexs("xy"), "f:" + hexs("q" * 63),
+                        "f:" + hexs("w" * 70), "G:1:2", "p:" + hexs("abc"), "c:b=1 f:" + hexs("zz")):
+                counts["scratch_reuse"] = counts.get("scratch_reuse", 0) + 1
+                yield "3 300 1 %d %d c:rv=1 G:0:0 E:%d:1 %s G:1:0 E:%d:1 G:2:0 E:%d:-1" % (
+                    n1 % 2, n2 % 2, n1, mid, n2, n1)
     # 4. random in-range sequences
     nseq = 6000 if quick else 800000
     pens = ["-", "rv=1", "rv=0", "bg=4", "fg=1,bg=2,rv=1", "bg=200", "rv=1,bg=17#102030", "b=1,u=1", "bg=-1", "fg=9"]
     for _ in range(nseq):
         lines, cols = rnd.choice(SIZES)
-        slrm, colon, rgb = rnd.randint(0, 1), rnd.randint(0, 1), rnd.randint(0, 1)
+        slrm, colon, rgb = rnd.choice([0, 1, 1, 2, 3, 4]), rnd.randint(0, 1), rnd.randint(0, 1)
         cur = Cur(lines, cols)
         ops = []
         malformed = rnd.random() < 0.08
         for _ in range(rnd.randint(1, 9)):
-            kind = rnd.choice("GGMMPPpnEEKSSSScsOF")
-            if not cur.known and kind in "MPpnE":
+            kind = rnd.choice("GGMMPPpnfEEEKSSSScsOF")
+            if not cur.known and kind in "MPpnfE":
                 kind = "G"
             if kind == "G":
                 l = rnd.choice([-1, 0, lines - 1, rnd.randrange(lines)])
@@ -223,11 +251,13 @@ def _gen(tier, seed, info):
                 n = max(0, min(n, room - 1 if me == 1 else room))
                 if malformed and rnd.random() < 0.3: n = room + 3
                 op = "E:%d:%d" % (n, me)
-            elif kind in "pn":
+            elif kind in "pnf":
                 room = 0 if cur.pend else max(0, cols - cur.col)
-                text = "".join(chr(rnd.randint(33, 126)) for _ in range(rnd.randint(0, room)))
+                text = "".join(chr(rnd.randint(33, 126)) for _ in range(rnd.choice([rnd.randint(0, room), min(room, rnd.randint(62, 66))])))
                 if kind == "p":
                     op = "p:" + hexs(text)
+                elif kind == "f":
+                    op = "f:" + hexs(text)
                 else:
                     ln = rnd.choice([len(text), len(text), rnd.randint(0, len(text))])
                     op = "n:%s:%d" % (hexs(text), ln)
@@ -261,7 +291,7 @@ def _gen(tier, seed, info):
 
 def _walk(case):
     t = case.split()
-    lines, cols, slrm = int(t[0]), int(t[1]), int(t[2])
+    lines, cols, slrm = int(t[0]), int(t[1]), int(t[2]) in (1, 2)     # the DECRPM value: set / reset = available
     cur = Cur(lines, cols)
     for op in t[5:]:
         yield lines, cols, slrm, cur, op
